@@ -76,6 +76,24 @@ var universe = []P{
 	{OS: "unknown", Architecture: "unknown"},
 }
 
+// extra platforms of the thorough tier
+var universeThorough = []P{
+	{OS: "linux", Architecture: "amd64", Variant: "v4"},
+	{OS: "linux", Architecture: "arm", Variant: "6"},
+	{OS: "linux", Architecture: "arm", Variant: "5"},
+	{OS: "linux", Architecture: "mips64le"},
+	{OS: "linux", Architecture: "loong64"},
+	{OS: "linux", Architecture: "arm64", OSVersion: "6.1"},
+	{OS: "windows", Architecture: "amd64", OSVersion: "10.0.17763"},
+	{OS: "windows", Architecture: "amd64", OSVersion: "10.0.17763.1", OSFeatures: []string{"win32k"}},
+	{OS: "windows", Architecture: "arm64"},
+	{OS: "darwin", Architecture: "arm64", Variant: "v8"},
+	{OS: "macos", Architecture: "amd64"},
+	{OS: "freebsd", Architecture: "arm64"},
+	{OS: "linux", Architecture: "386", Variant: "sse2"},
+	{OS: "linux", Architecture: "ppc64le", Variant: "power9"},
+}
+
 // ---- independent notion of "the requested platform can run this entry" ----------------
 
 func canonArch(a, v string) (string, int) {
@@ -280,6 +298,9 @@ func main() {
 	for i := 0; i < 8; i++ {
 		digests = append(digests, digest.FromString(fmt.Sprint("entry", i)))
 	}
+	if ev.Tier() == "thorough" {
+		universe = append(universe, universeThorough...)
+	}
 	ent := make([]*P, 0, len(universe)+1)
 	for i := range universe {
 		ent = append(ent, &universe[i])
@@ -312,7 +333,8 @@ func main() {
 					}
 				}
 			}
-			// length 4 over compatible-or-adjacent entries
+			// length 4 over compatible-or-adjacent entries (12 of them, thorough tier: 18 = 105 k lists per request)
+			nearCap := ev.Scale(12, 18)
 			var near []*P
 			for i := range universe {
 				p := &universe[i]
@@ -322,7 +344,7 @@ func main() {
 			}
 			for i := range universe {
 				p := &universe[i]
-				if len(near) >= 12 {
+				if len(near) >= nearCap {
 					break
 				}
 				ra, _ := canonArch(req.Architecture, req.Variant)
@@ -331,8 +353,8 @@ func main() {
 					near = append(near, p)
 				}
 			}
-			if len(near) > 12 {
-				near = near[:12]
+			if len(near) > nearCap {
+				near = near[:nearCap]
 			}
 			for _, a := range near {
 				for _, b := range near {
